@@ -56,12 +56,13 @@ type Placement struct {
 	terminal                 map[string]map[uint64]string // chain -> id -> "executed" | "refunded"
 	lastID                   map[string]uint64
 	hashUse                  map[string]int               // tx hash -> number of transfers carrying it
+	refundedHash             map[string]bool              // tx hashes under which a refund was reported
 	hashOf                   map[string]map[uint64]string // chain -> id -> tx hash (unique ones only)
 	Rebatched, Returned, Big int
 }
 
 func NewPlacement() *Placement {
-	p := &Placement{live: map[string]map[uint64]string{}, terminal: map[string]map[uint64]string{}, lastID: map[string]uint64{}, hashOf: map[string]map[uint64]string{}, hashUse: map[string]int{}}
+	p := &Placement{live: map[string]map[uint64]string{}, terminal: map[string]map[uint64]string{}, lastID: map[string]uint64{}, hashOf: map[string]map[uint64]string{}, hashUse: map[string]int{}, refundedHash: map[string]bool{}}
 	for _, c := range ExtChains {
 		p.live[c] = map[uint64]string{}
 		p.terminal[c] = map[uint64]string{}
@@ -140,6 +141,9 @@ func (p *Placement) Step(it *Interp, st *StepInfo) {
 			}
 			p.terminal[ch][id] = why
 			delete(p.live[ch], id)
+			if why == "refunded" && e != nil && uniqueHash(e.TxHash) && e.RefundChainId != "" {
+				p.refundedHash[e.TxHash] = true
+			}
 		}
 		// appearances and moves
 		ids := make([]uint64, 0, len(now))
@@ -184,6 +188,13 @@ func (p *Placement) Step(it *Interp, st *StepInfo) {
 		}
 		// status follows the life-cycle (only for transfers with a tx hash of their own)
 		ctx := it.H.Ctx()
+		// 'refunded' is final, also for a hash shared by several transfers
+		for hsh := range p.refundedHash {
+			if s := it.H.K.GetTxStatus(ctx, hsh).Status; s != mtypes.TX_STATUS_REFUNDED {
+				it.Fail("C04", "refunded-not-final", "%s: status of tx %s.. was REFUNDED and is now %s", ch, hsh[:12], s)
+				return
+			}
+		}
 		for id, e := range entry {
 			if !uniqueHash(e.TxHash) || p.hashUse[e.TxHash] != 1 {
 				continue // status is keyed by tx hash; transfers sharing one share a status by design
